@@ -6,6 +6,8 @@ import Driver.C03
 import Driver.C09
 import Driver.C10
 import Driver.C11
+import Driver.C16
+import Driver.C17
 open Lean
 
 def dispatch (p op : String) (c i : Json) : Except String (Json × String) :=
@@ -17,6 +19,8 @@ def dispatch (p op : String) (c i : Json) : Except String (Json × String) :=
   | "C09" => D09.handle op c i
   | "C10" => D10.handle op c i
   | "C11" => D11.handle op c i
+  | "C16" => D16.handle op c i
+  | "C17" => D17.handle op c i
   | _ => throw s!"unknown property {p}"
 
 def handleLine (line : String) : String :=
